@@ -47,7 +47,7 @@ CLAIMS = {
   TRUST + "strings.ToLower / TrimSpace / TrimLeftFunc and strconv parsing are modelled axiomatically (T-STD). Spacing-irrelevance is a relation between two runs and is not proved; the thorough tier adds a bounded stand-in for it (every sequence of at most four tokens from a pool of 20 with every choice of optional spacing, labelled bounded in the evidence). 'No earlier closing quote inside a literal' is not covered.",
   "DESIGN.md section 5, C16"),
  "C17": ("proof",
-  "errors.go is under contract: outputQueryAndErrPos is proved, for every query text, offset and padding, to render a window of the trimmed query that contains the offset and to place the caret under the byte at that offset of the original query (string theory with sub/at/cat/blen axioms; loop invariants over the padding loops), without any out-of-range slice; Error() of a bound SyntaxError/ExecuteError starts with that rendering; the constructors carry the given position; every SyntaxError of the expression parser carries -1, 0 or a token start (bounded-existential witness).",
+  "errors.go is under contract: outputQueryAndErrPos is proved, for every query text, offset and padding, to render a window of the trimmed query that contains the offset and to place the caret under the byte at that offset of the original query (string theory with sub/at/cat/blen axioms; loop invariants over the padding loops), without any out-of-range slice; Error() of a bound SyntaxError/ExecuteError starts with that rendering; the constructors carry the given position; every SyntaxError of the expression parser and of parseLimit carries -1, 0 or a token start (bounded-existential witness).",
   TRUST + "strings.TrimSpace / TrimLeftFunc / fmt.Sprintf are modelled axiomatically (T-STD). Statement-level parser errors, checker and execution-time positions are not yet covered; token positions inside the query are the lexer's contract (C16).",
   "DESIGN.md section 5, C17"),
  "C18": ("proof",
